@@ -1933,13 +1933,18 @@ func (h *fsmHandler) recvMessageloop(ctx context.Context, conn net.Conn, holdtim
 					handling := fmsg.handling
 					useRevisedError := h.fsm.isTreatAsWithdraw
 
+					// An UPDATE that already has a decoding error of the
+					// attribute-discard or treat-as-withdraw class is still
+					// validated: the strongest error of the message decides.
 					var validationErr error
-					if handling == bgp.ERROR_HANDLING_NONE {
+					if handling != bgp.ERROR_HANDLING_SESSION_RESET {
 						ok, ve := bgp.ValidateUpdateMsg(body, rfMap, h.fsm.isEBGP, h.fsm.isConfed, h.allowLoopback)
 						if !ok {
-							validationErr = ve
-							handling = h.handlingError(m, ve, useRevisedError)
-							fmsg.handling = handling
+							if vh := h.handlingError(m, ve, useRevisedError); vh > handling {
+								validationErr = ve
+								handling = vh
+								fmsg.handling = handling
+							}
 						}
 					}
 					if handling == bgp.ERROR_HANDLING_SESSION_RESET {
